@@ -429,8 +429,10 @@ def array_io_cells(tier, parts):
         rcombos = [(1, "float", "ndebug"), (1, "double", "debug")]
         wcombos = [(1, "float")]
     else:
-        rcombos = [(m, t, fl) for m, t in ((1, "float"), (1, "double"), (3, "float"), (3, "double"), (2, "double")) for fl in ("debug", "ndebug")]
-        wcombos = [(1, "float"), (1, "double"), (3, "float"), (3, "double")]
+        # each cell is ~9 solver runs of 3-10 min: the thorough tier takes both flavours at M=1 and one flavour each at M=2, 3
+        rcombos = [(1, "float", "debug"), (1, "float", "ndebug"), (1, "double", "debug"), (1, "double", "ndebug"),
+                   (3, "float", "ndebug"), (3, "double", "debug"), (2, "double", "ndebug")]
+        wcombos = [(1, "float"), (1, "double"), (3, "double")]
     if "read" in parts:
         for m, t, fl in rcombos:
             d = {"DIMS_OUT": m, "OUT_SCALAR_T": t, "VERIF_USE_LOOP_CONTRACTS": 1}
